@@ -25,6 +25,7 @@ var c13Fields = []c13Field{
 	{"dby", `"ab"`, `ab`}, {"de", `"RED"`, `RED`}, {"dfx", `"wxyz"`, `wxyz`}, {"dt", `"tt"`, `tt`},
 	{"dr", `{"s":"sup"}`, `(s:sup)`}, {"du", `{"int":3}`, `(int:3)`}, {"dea", `[1]`, `List(1)`}, {"da", `["z"]`, `List(z)`},
 	{"dem", `{"k":1}`, `(k:1)`}, {"dmm", `{"j":4}`, `(j:4)`},
+	{"dhb", `"\u00fe"`, `%C3%BE`},
 }
 
 func c13Doc(format int, present []bool, extra string) string {
@@ -103,6 +104,9 @@ func c13CheckField(d *vt.Defaults, i int, supplied bool) {
 		ok = d.Da != nil && (supplied && len(*d.Da) == 1 && (*d.Da)[0] == "z" || !supplied && len(*d.Da) == 2 && (*d.Da)[0] == "p" && (*d.Da)[1] == "q")
 	case 13:
 		ok = d.Dem != nil && (supplied && len(*d.Dem) == 1 && (*d.Dem)["k"] == 1 || !supplied && len(*d.Dem) == 0)
+	case 15:
+		// bytes default with bytes >= 0x80 (one code point per byte in the schema literal)
+		ok = d.Dhb != nil && (supplied && string(*d.Dhb) == "\xfe" || !supplied && string(*d.Dhb) == "\xff\x80a")
 	case 14:
 		ok = d.Dmm != nil && (supplied && len(*d.Dmm) == 1 && (*d.Dmm)["j"] == 4 || !supplied && len(*d.Dmm) == 1 && (*d.Dmm)["k"] == 3)
 	}
